@@ -168,6 +168,19 @@ def run_pipeline(prop, group_scen, tier, seed, res, bins_release=False, trace_sp
     return res
 
 
+def viol_classes(violations):
+    out = {}
+    for ev, fields, _ in violations:
+        k = f"{ev.get('op')}:{','.join(sorted(fields))}"
+        d = out.setdefault(k, {"count": 0, "widths": [], "first": None})
+        d["count"] += 1
+        if ev.get("bits") not in d["widths"] and len(d["widths"]) < 60:
+            d["widths"].append(ev.get("bits"))
+        if d["first"] is None:
+            d["first"] = {k2: v for k2, v in ev.items() if k2 in ("bits", "bits2", "a", "b", "s", "i", "m", "x", "xs", "t", "v") or k2 in fields}
+    return out
+
+
 def finish(prop, tier, seed, res, t0, level, rule, assumptions, extra_cov=None, nontrivial=None):
     """Print KNOWN-FINDING / VIOLATION lines, write evidence, return exit code."""
     known = {k["id"]: k for k in load_known(prop)}
@@ -201,6 +214,7 @@ def finish(prop, tier, seed, res, t0, level, rule, assumptions, extra_cov=None, 
         "hangs": res.hangs,
         "crashes": res.crashes,
         "violating_events": nviol,
+        "violation_classes": viol_classes(res.violations),
     }
     if extra_cov:
         cov.update(extra_cov)
